@@ -116,6 +116,7 @@ inductive HOp
 structure Handler where
   ops : List HOp := []
   fin : Env := {}
+  rejected : Bool := false   -- parser.Execute refuses the job (the connection is closing): the handler never runs
 
 /-- the handler body: `o` is the response twin (its heap is the shared heap) -/
 def runHandler : O → BR → List HOp → O × BR × List (Nat × Bool)
@@ -132,6 +133,8 @@ def runHandler : O → BR → List HOp → O × BR × List (Nat × Bool)
 /-- OnComplete: handler, flushResponse with releaseRequest between the flush and releaseResponse -/
 def complete (s : PS) (hd : Handler) : PS × List (Nat × Bool) :=
   let br := s.body.getD {}
+  -- `if !parser.Execute(..) { releaseRequest(request) }`
+  if hd.rejected then ({ s with body := none, o := { heap := (brClose s.heap br).1 } }, []) else
   let h := s.heap
   let o : O := { heap := h }
   let (o, br, out) := runHandler o br hd.ops
